@@ -396,11 +396,29 @@ func (w *c15World) onHandover() {
 	w.mu.Unlock()
 	if trigger {
 		w.endNowOnce.Do(func() { close(w.endNow) })
+		// Wait until End is under way. The wait is the harness's own doing
+		// (the collector is held here with collectLock taken), so it is
+		// bounded: an End that needs the lock before it signals melt never
+		// gets here while we wait. Then the collector is released and the
+		// outcome is judged like any other.
+		select {
+		case <-w.endCalled:
+		case <-time.After(5 * time.Second):
+		case <-w.teardown:
+		}
 		select {
 		case <-w.afterMelt: // End has closed melt and is about to take collectLock
 			w.res.Obs("end_placed_between_catch_and_handover", 1)
 			time.Sleep(2 * time.Millisecond) // let it park on the lock
-		case <-time.After(5 * time.Second):
+		case <-time.After(1500 * time.Millisecond):
+			select {
+			case <-w.endCalled:
+				w.res.Obs("end_called_at_handover_melt_not_signalled", 1)
+				w.mu.Lock()
+				w.ev("hook: End was called 1.5 s ago and has not signalled melt; the collector is released")
+				w.mu.Unlock()
+			default:
+			}
 		case <-w.teardown:
 		}
 		return
@@ -669,14 +687,14 @@ func (w *c15World) parked() (endParked, sendParked bool, excerpt string) {
 	colls := append([]string{}, w.collectorGIDs...)
 	w.mu.Unlock()
 	for _, id := range ends {
-		if g := c15FindG(gs, id); g != nil && strings.HasPrefix(g.State, "sync.Mutex.Lock") && g.HasFrame("(*Peers).End") {
+		if g := c15FindG(gs, id); g != nil && c15EndOnLock(g) {
 			endParked = true
 			excerpt += g.Raw + "\n"
 			break
 		}
 	}
 	for _, id := range colls {
-		if g := c15FindG(gs, id); g != nil && strings.HasPrefix(g.State, "chan send") && g.HasFrame("(*Peers).Collect") {
+		if g := c15FindG(gs, id); g != nil && c15CollectInHandover(g) {
 			sendParked = true
 			excerpt += g.Raw + "\n"
 			break
@@ -710,11 +728,11 @@ func (w *c15World) judgeStuck() {
 		w.mu.Unlock()
 		if !dup {
 			w.res.Violate("c15:end-blocked:collect-handover-send-holds-lock",
-				fmt.Sprintf("%s: End does not return although no Catch is in flight: End is parked on collectLock, held by a Collect parked in the hand-over send (hand-over channel %d/%d)",
+				fmt.Sprintf("%s: End does not return although no Catch is in flight: End is parked on collectLock, held by a Collect parked in the hand-over to the channel (chan send / select without timer; hand-over channel %d/%d)",
 					w.sc.Case, len(w.P.snowflakeChan), cap(w.P.snowflakeChan)), rec)
 		}
 	} else {
-		w.res.Inconcl(fmt.Sprintf("%s: End has not returned 2 s after the last Catch ended, but the dumps do not show End on collectLock + Collect in chan send (end=%v/%v send=%v/%v)", w.sc.Case, e1, e2, s1, s2))
+		w.res.Inconcl(fmt.Sprintf("%s: End has not returned 2 s after the last Catch ended, but the dumps do not show End on collectLock + Collect parked in its hand-over (end=%v/%v handover=%v/%v)", w.sc.Case, e1, e2, s1, s2))
 	}
 	// rescue: drain the hand-over channel so that the world can be torn down
 	w.mu.Lock()
@@ -1283,7 +1301,13 @@ func TestVerifC15Peers(t *testing.T) {
 	res.RequireObs("stale_spare_scenarios", mine["stale"])
 	res.RequireObs("pop_skips_closed_scenarios", mine["pop"])
 	res.RequireObs("real_connect_loop_collects", mine["real-loop"])
-	res.RequireObs("end_placed_between_catch_and_handover", mine["steered"]/3)
+	// steering: End was called while a collector was held between Catch and
+	// hand-over. If violations were recorded the placement may legitimately
+	// have been impossible (End not getting as far as melt is such a finding).
+	if res.NViolations() == 0 {
+		placed := res.GetObs("end_placed_between_catch_and_handover") + res.GetObs("end_called_at_handover_melt_not_signalled")
+		res.Require(placed >= mine["steered"]/3, fmt.Sprintf("End placed between Catch and hand-over %d times < %d", placed, mine["steered"]/3))
+	}
 	res.RequireObs("catch_ok", 200)
 	res.RequireObs("catch_blocked", 10)
 	res.RequireObs("catch_err-timeout", 3)
